@@ -5,6 +5,7 @@ use crate::tls_demultiplexer::Protocol;
 use crate::{datagram_pipe, http_codec, log_id, log_utils, net_utils, pipe, utils};
 use async_trait::async_trait;
 use bytes::{BufMut, Bytes, BytesMut};
+use futures::future::BoxFuture;
 use std::io;
 use std::io::ErrorKind;
 use std::net::IpAddr;
@@ -338,6 +339,20 @@ impl http_codec::PendingRespond for StreamSink {
                     format!("Failed to put response in queue: {}", e),
                 )
             })
+    }
+
+    fn wait_intermediate_response_sent(&self) -> BoxFuture<'static, io::Result<()>> {
+        let download_tx = self.download_tx.clone();
+        Box::pin(async move {
+            // a free slot in the queue means the codec has taken the previous response
+            match download_tx {
+                Some(tx) => match tx.reserve().await {
+                    Ok(_permit) => Ok(()),
+                    Err(_) => Err(io::Error::from(ErrorKind::UnexpectedEof)),
+                },
+                None => Err(io::Error::from(ErrorKind::UnexpectedEof)),
+            }
+        })
     }
 
     fn send_response(
